@@ -43,9 +43,25 @@ def kwarg(call, name, pos=None):
     for k in call.keywords:
         if k.arg == name:
             return k.value
+    ps = getattr(call, '_callee_params', None)          # canonical front end: keywords of resolved calls became positional
+    if ps and name in ps and ps.index(name) < len(call.args):
+        return call.args[ps.index(name)]
     if pos is not None and pos < len(call.args):
         return call.args[pos]
     return None
+
+
+def named_args(call):
+    """{parameter name: value} of a call: keywords, plus positionals named through the resolved callee's signature"""
+    out = {}
+    ps = getattr(call, '_callee_params', None) or []
+    for i, a in enumerate(call.args):
+        if i < len(ps):
+            out[ps[i]] = a
+    for k in call.keywords:
+        if k.arg:
+            out[k.arg] = k.value
+    return out
 
 
 def root_name(e):
@@ -147,7 +163,7 @@ def units_rule(ctx, rule, funcs, why):
 # abscissae of numpy.interp that are ascending by a precondition on user data, confirmed by reading (one reason each)
 INTERP_PRECONDITIONS = {
     'self.params.raman_coefficient.frequency_offset': 'Raman gain profile: offsets are documented (and shipped) in increasing order',
-    'spectral_info.frequency[cut_indices]': 'the channels selected for the NLI computation are listed in increasing order (documented)',
+    'spectral_info.frequency[<selection>]': 'the channels selected for the NLI computation are listed in increasing order (documented)',
 }
 
 
@@ -155,6 +171,8 @@ def ascending_source(f, e, depth=3):
     """why expression e (the xp argument of numpy.interp) is known to be ascending, or None"""
     from ..dataflow import local_defs
     t = ast.unparse(e)
+    if isinstance(e, ast.Subscript) and isinstance(e.slice, ast.Name) and ast.unparse(e.value) == 'spectral_info.frequency':
+        t = 'spectral_info.frequency[<selection>]'
     if t in INTERP_PRECONDITIONS:
         return 'precondition: ' + INTERP_PRECONDITIONS[t]
     if isinstance(e, ast.Attribute) and e.attr == 'frequency' and isinstance(e.value, ast.Name) and 'spectral_info' in e.value.id:
